@@ -90,6 +90,9 @@ type world struct {
 	errs     map[string]error
 	admitted []admission
 	viol     *core.Violation
+	// the unlock thread ran (it stands for an operator's command, whoever is
+	// still a member by then)
+	unlockRan bool
 }
 
 func isOp(user string) bool { return user == "alice" || user == "oper" }
@@ -119,6 +122,9 @@ func newWorld(cfg config) *world {
 			if p == "op" {
 				op = true
 			}
+		}
+		if c.System {
+			return // the recorder is not subject to admission rules (but counts as a member)
 		}
 		a := admission{c.ID, op, locked, members, ops}
 		w.admitted = append(w.admitted, a)
@@ -201,8 +207,14 @@ func menu(cfg config) []thread {
 		leave("alice"),
 		leave("bob"),
 		{"lock", func(w *world) { group.Get("g").SetLocked(true, "") }},
-		{"unlock", func(w *world) { group.Get("g").SetLocked(false, "") }},
+		{"unlock", func(w *world) { w.unlockRan = true; group.Get("g").SetLocked(false, "") }},
 	}
+	// a recording starts: the disk writer joins as a system client (a member like any other for max-clients)
+	m = append(m, thread{"recorder-joins", func(w *world) {
+		c := &glife.Fake{ID: "rec", System: true}
+		w.clients["rec"] = c
+		w.errs["rec"] = glife.Join(c, "", "")
+	}})
 	// reload with a stricter description
 	m = append(m, thread{"reload", func(w *world) { group.Add("g", nil) }})
 	// an administrator installs a stricter description and the server notices it
@@ -257,6 +269,17 @@ func (w *world) final() (string, *core.Violation) {
 		for _, a := range w.admitted {
 			if !a.op && len(a.members) > w.cfg.max {
 				return "", &core.Violation{Signature: "C10/capacity/non-op-admitted-to-full-group/" + w.cfg.name, What: fmt.Sprint(a)}
+			}
+		}
+	}
+	// autolock: a group without an operator is locked (unless somebody
+	// unlocked it in this very execution)
+	if w.cfg.autolock && !w.unlockRan {
+		if g := group.Get("g"); g != nil {
+			locked, ms, ops, _, _, _ := g.VerifPeek()
+			if ops == 0 && !locked {
+				return "", &core.Violation{Signature: "C10/autolock/unlocked-without-operator/" + w.cfg.name,
+					What: fmt.Sprintf("configuration %s: at the end no operator is a member (members %v) and the group is not locked although nobody unlocked it after the last operator left", w.cfg.name, ms)}
 			}
 		}
 	}
